@@ -124,6 +124,7 @@ func (proxy *Server) copyHeadersFromIPFSWithRequest(
 		logger.Error("error making request for header extraction to ipfs: ", err)
 		return err
 	}
+	defer res.Body.Close()
 
 	for _, h := range hdrs {
 		dest[h] = res.Header[h]
